@@ -251,3 +251,79 @@ def _judge(tree, reader, state):
     okr = (bool(err) and kinds(err) <= {'ret'} and all('Err' in repr(l.get('e'))[:3000] for l in err)) or (not err)
     out.append(('error->Err', okr, '' if okr else 'a read error does not leave parse_section as that error'))
     return out
+
+
+def first_section_table(facts, hfn):
+    """parse_first_section as a table: (after the optional look at the current line) every line read is tested for a
+    section header: a header ends the search with that section, any other line is passed over, end of input gives
+    `None`, a read error is returned.  [(label, ok, why)]"""
+    ps = [H.pat_bindings(p_)[0] for p_ in hfn.get('params', []) if H.pat_bindings(p_)]
+    reader = ps[0] if ps else 'reader'
+    best = None
+    for dpt in (0, 1, 2):
+        vh = hfn if dpt == 0 else H.inlined_fn(facts, hfn, depth=dpt, keep=('read_line', 'try_from_line', 'curr_line'))
+        ev = LoopEval('__none__')
+        body = vh['body']
+        try:
+            tree = ev.seq(list(body.get('stmts', [])), body.get('expr'), {},
+                          lambda env, tail: ('v', {'k': 'fnend', 'e': ev.subst(tail, env) if tail is not None else None}),
+                          kret=lambda vt, env=None: ('v', {'k': 'ret', 'e': vt}))
+        except SE.Stop:
+            continue
+        rows = {'hdr': [], 'nohdr': [], 'eof': [], 'err': [], 'other': []}
+
+        def walk(t, val):
+            if t[0] == 'v':
+                key = 'other'
+                if val.get('R') == 'eof':
+                    key = 'eof'
+                elif val.get('R') == 'err':
+                    key = 'err'
+                elif val.get('R') in ('line', 'ok') and val.get('H') is True:
+                    key = 'hdr'
+                elif val.get('R') in ('line', 'ok') and val.get('H') is False:
+                    key = 'nohdr'
+                rows[key].append(t[1])
+                return
+            _, c, th, el = t
+            cl = _classify(c, reader)
+            if cl is None:
+                walk(th, val)
+                walk(el, val)
+                return
+            what, arg, pol = cl[:3]
+            if what == 'R':
+                v1 = dict(val)
+                v1['R'] = arg
+                walk(th, v1)
+                v2 = dict(val)
+                if len(cl) > 3:
+                    v2['R'] = cl[3]
+                walk(el, v2)
+            elif what == 'H':
+                v1, v2 = dict(val), dict(val)
+                v1['H'], v2['H'] = pol, not pol
+                walk(th, v1)
+                walk(el, v2)
+            else:
+                walk(th, val)
+                walk(el, val)
+        walk(tree, {})
+        kinds = lambda ls: {l.get('k') for l in ls if isinstance(l, dict)}
+        txt = lambda l: repr(l.get('e'))[:4000]
+        r = []
+        okh = bool(rows['hdr']) and kinds(rows['hdr']) <= {'ret'} and all(
+            ("'k': 'local'" in txt(l) or 'try_from_line' in txt(l)) and "'name': 'None'" not in txt(l) for l in rows['hdr'])
+        r.append(('first:header->that-section', okh, '' if okh else 'a header line does not end the search with the section it names'))
+        okn = bool(rows['nohdr']) and kinds(rows['nohdr']) <= {'again', 'continue'}
+        r.append(('first:other-line->next-line', okn, '' if okn else 'a line that is no header is not simply passed over'))
+        eofl = rows['eof'] or [l for l in rows['other'] if isinstance(l, dict) and l.get('k') in ('fnend',)]
+        oke = bool(eofl) and all("'name': 'None'" in txt(l) for l in eofl)
+        r.append(('first:eof->None', oke, '' if oke else 'end of input does not give `None`'))
+        okr = all("'name': 'Err'" in txt(l) for l in rows['err'])
+        r.append(('first:error->Err', okr, '' if okr else 'a read error is not returned'))
+        if all(x[1] for x in r):
+            return r
+        if best is None or sum(1 for x in r if not x[1]) < sum(1 for x in best if not x[1]):
+            best = r
+    return best or [('first:table', False, 'parse_first_section could not be evaluated')]
